@@ -67,11 +67,17 @@ theorem setnx_eq_set_nx (db : Db) (now : Nat) (k v : Bytes) :
   cases h : (lookup db k).isSome <;>
     simp [cmdSetnx, cmdSet, parseSetOpts, upperBytes, upper, h, mkStr]
 
-/-- APPEND concatenates and returns the new length; the time-to-live survives. -/
+/-- APPEND concatenates and returns the new length; the time-to-live survives — up to the 512 MB limit, beyond
+    which it is refused and changes nothing. -/
 theorem append_is_concat (db : Db) (k b v : Bytes) (d : Option Nat)
     (h : lookup db k = some ⟨.str b, d⟩) :
-    cmdAppend db [k, v] = (insert db k ⟨.str (b ++ v), d⟩, nat (b.length + v.length)) := by
-  simp [cmdAppend, h]
+    cmdAppend db [k, v] =
+      if b.length + v.length ≤ 536870912 then (insert db k ⟨.str (b ++ v), d⟩, nat (b.length + v.length)) else (db, err) := by
+  by_cases hl : b.length + v.length ≤ 536870912
+  · have : ¬ (b.length + v.length > 536870912) := by omega
+    simp [cmdAppend, h, hl, this]
+  · have : b.length + v.length > 536870912 := by omega
+    simp [cmdAppend, h, hl, this]
 
 /-- STRLEN is the length of what GET returns (0 for a missing key). -/
 theorem strlen_eq_length_get (db : Db) (k b : Bytes) (d : Option Nat) (h : lookup db k = some ⟨.str b, d⟩) :
